@@ -349,6 +349,29 @@ fn gen_poly2(r: &mut Rng, max_holes: usize) -> Poly2 {
     let outer = reverse_if(r, outer);
     let outer = rotate_start(r, outer);
     let holes = holes_in_disc(r, c, rad, nh);
+    // drawings on a grid: one polygon with holes in ten has all its coordinates snapped to a quarter of a metre (collinear
+    // bridges and edges lining up with vertices become common).  The choice is derived from the coordinates themselves, not
+    // drawn, so that the case stream of every seed is otherwise unchanged.
+    if nh > 0 && (family == "star" || family == "convex") && outer[0].0.to_bits() % 10 == 0 {
+        let snap = |p: &P2| -> P2 { ((p.0 * 4.).round() / 4., (p.1 * 4.).round() / 4.) };
+        let dedup = |v: Vec<P2>| -> Vec<P2> {
+            let mut o: Vec<P2> = vec![];
+            for p in v {
+                if o.last() != Some(&p) {
+                    o.push(p);
+                }
+            }
+            if o.len() > 1 && o.first() == o.last() {
+                o.pop();
+            }
+            o
+        };
+        let outer = dedup(outer.iter().map(snap).collect());
+        let holes: Vec<Vec<P2>> = holes.iter().map(|h| dedup(h.iter().map(snap).collect())).filter(|h| h.len() >= 3).collect();
+        if outer.len() >= 3 {
+            return Poly2 { family: "grid", outer, holes };
+        }
+    }
     Poly2 { family, outer, holes }
 }
 
@@ -705,6 +728,32 @@ pub fn c01(r: &mut Rng, out: &mut Out, n: usize) {
     c01_like(r, out, n, Show::Full, "c01");
 }
 pub fn c09(r: &mut Rng, out: &mut Out, n: usize) {
+    // recorded finding (known_findings.json, C09-merge-drops-vertex-shared): a well-conditioned polygon in general position for
+    // which from_polygon returns Err — two holes are hooked to the same vertex and push drops a vertex of the merged outline
+    #[cfg(not(feature = "float"))]
+    {
+        let p3 = |v: &[(f64, f64)]| -> Vec<Point3D> { v.iter().map(|p| Point3D::new(p.0, p.1, 0.)).collect() };
+        let mp = MPoly {
+            family: "regression",
+            frame_kind: "xy",
+            outer: p3(&[
+                (-1.2865690630193998, 4.469626166254279),
+                (3.3845524612439446, 3.511952521551846),
+                (3.2879686542271918, -0.8162292387393585),
+                (0.8493354300752882, -2.9506475565968864),
+                (-2.7381675906582013, -2.841236672960086),
+                (-3.1801162360668904, 0.7894551704835665),
+            ]),
+            holes: vec![
+                p3(&[(-0.9936217908662166, 0.8841033137599438), (-0.39694528357115577, 0.9099337523950658), (-0.48410496653995305, 1.4479475190251834)]),
+                p3(&[(1.267152281112807, 0.6044340253194727), (1.2689369989661388, 1.045060289891185), (0.7353717351113651, 1.05275117999144), (0.9033507061437395, 0.611412644732505)]),
+                p3(&[(-0.7880052381857388, -0.24833006250504724), (-0.9716072561928338, -0.6111988491301136), (-0.9787242969713167, -1.0088533396071524), (-0.5387389023061483, -0.9329383014466646), (-0.5013868742644354, -0.5615853433779059)]),
+            ],
+            nholes: 3,
+        };
+        let mut st = Stats::default();
+        emit_mesh_case(out, &mut st, &mp, None, Show::Outcome);
+    }
     c01_like(r, out, n, Show::Outcome, "c09");
 }
 
